@@ -72,17 +72,30 @@ def fit_mvstud(data, tolerance=1e-6, max_iter=100):
     while np.abs(last_nu - nu) > tolerance and i < max_iter:
         i += 1
         diffs = data - mu
-        delta_iobs = np.sum(diffs * np.linalg.solve(Sigma, diffs), 0)
+        # On a degenerate sample (too few distinct points for the dimension) the
+        # EM collapses: Sigma becomes singular and the score function of nu is
+        # no longer defined. Stop there and keep the last valid estimate.
+        try:
+            delta_iobs = np.sum(diffs * np.linalg.solve(Sigma, diffs), 0)
+            new_nu = opt_nu(delta_iobs, nu)
+        except (np.linalg.LinAlgError, ValueError):
+            break
 
         # update nu
         last_nu = nu
-        nu = opt_nu(delta_iobs, nu)
+        nu = new_nu
         if nu == np.inf:
             return mu.T[0], Sigma, nu
 
         # update Sigma
         w_iobs = (nu + dim) / (nu + delta_iobs)
-        Sigma = np.dot(w_iobs * diffs, diffs.T) / n
+        new_Sigma = np.dot(w_iobs * diffs, diffs.T) / n
+        try:
+            np.linalg.cholesky(new_Sigma)
+        except np.linalg.LinAlgError:
+            nu = last_nu
+            break
+        Sigma = new_Sigma
 
         # update mu
         mu = np.sum(w_iobs * data, 1) / sum(w_iobs)
